@@ -283,6 +283,13 @@ func (ex *Exec) loopModified(li *loopInfo) *modSet {
 			case *ssa.Send, *ssa.Select:
 				if _, isSel := in.(*ssa.Select); isSel {
 					ms.ghosts = append(ms.ghosts, "sel:idx", "sel:ok")
+					if ex.con != nil {
+						for key, v := range ex.con.Counts {
+							if strings.HasPrefix(key, "select@") {
+								ms.ghosts = append(ms.ghosts, "cnt:"+v)
+							}
+						}
+					}
 				}
 				if ex.con != nil && ex.con.ChanEvents {
 					for _, g := range []string{"sends", "recvs", "dones", "timeouts", "drained"} {
